@@ -74,6 +74,32 @@ def _job(args):
         # genhkl_all is the union of the families of genhkl_unique
         np.random.seed(rng.randrange(2 ** 31))
         uni = mod.genhkl_unique(cell, smin, smax, sgno=o.no, cell_choice=cc)
+        # the bounds themselves: sintlmax equal (bit for bit) to a listed reflection's sintl keeps it, sintlmin equal to one drops it
+        urows = [tuple(int(round(x)) for x in r[:3]) for r in np.asarray(uni, float)]
+        incomplete_class = (o.Laue in ('-1', '2/m') and not orth) or setting == 'rhombohedral'      # the open finding: traversal exits early there
+        if len(urows) >= 2 and not fails and not incomplete_class:
+            ustl = [float(mod.sintl(cell, list(r))) for r in urows]
+            orbit = lambda r: frozenset(tuple(int(x) for x in np.array(r).dot(R)) for R in L)
+            axial = [i for i, r in enumerate(urows) if sum(1 for x in r if x == 0) == 2]
+            diag = [i for i, r in enumerate(urows) if abs(r[0]) == abs(r[1]) == abs(r[2])]
+            cand = set([len(urows) - 1, rng.randrange(len(urows))] + axial[-2:] + diag[-1:])
+            for i in sorted(cand):
+                hi = ustl[i]
+                j = rng.randrange(len(urows))
+                lo = ustl[j] if ustl[j] < hi else smin
+                got2 = mod.genhkl_unique(cell, lo, hi, sgno=o.no, cell_choice=cc)
+                n += 1
+                got2 = {orbit(tuple(int(round(x)) for x in r[:3])) for r in np.asarray(got2, float)}
+                want2 = {orbit(r) for r, s_ in zip(urows, ustl) if lo < s_ <= hi}
+                # rows whose sintl differs from a bound only by rounding between family members are left undecided
+                fuzzy = {orbit(r) for r, s_ in zip(urows, ustl) if (s_ != hi and abs(s_ - hi) < 1e-12) or (s_ != lo and abs(s_ - lo) < 1e-12)}
+                if (got2 - fuzzy) != (want2 - fuzzy):
+                    fails.append({'table': name, 'setting': setting, 'sgno': o.no, 'cell': cell, 'sintlmin': lo, 'sintlmax': hi,
+                                  'problem': 'bounds: sintlmax must be inclusive and sintlmin exclusive (bounds set equal to the sintl of listed reflections)',
+                                  'bound_reflection': list(urows[i]), 'n_missing': len(want2 - got2), 'n_extra': len(got2 - want2),
+                                  'missing': [sorted(f)[0] for f in list(want2 - got2)[:5]], 'duplicates': False, 'unsorted': False,
+                                  'bad_stl': False, 'laue': o.Laue, 'orthogonal_metric': orth, 'boundary_case': True})
+                    break
         allr = mod.genhkl_all(cell, smin, smax, sgno=o.no, cell_choice=cc, output_stl=True)
         n += 1
         want = set()
@@ -118,8 +144,8 @@ class UniqueUnit(Unit):
 
 
 def units(tier):
-    mods = ('tools',) if tier == 'quick' else ('tools', 'laue')
-    us = [C05.SegmentsUnit(mods)]
+    mods = ('tools', 'laue')
+    us = [C05.SegmentsUnit(mods if tier != 'quick' else ('tools',))]
     for m in mods:
         us.append(UniqueUnit(m, False))
         us.append(UniqueUnit(m, True))
